@@ -555,3 +555,50 @@ def source_params(slice_toks):
         out += [(n, var, ty, obj) for n in names]
         if not p.opt(S(";")): break
     return out
+
+
+def local_blocks(toks):
+    """{tuple of local names: tokens of one LOCAL … END_LOCAL ; block}"""
+    out, i = {}, 0
+    while i < len(toks):
+        if toks[i] == K("LOCAL"):
+            j = i
+            while toks[j] != K("END_LOCAL"): j += 1
+            p = P(toks[i + 1:j + 1]); names = []
+            while not p.at(K("END_LOCAL")):
+                ns = [p.ident()]
+                while p.opt(S(",")): ns.append(p.ident())
+                p.eat(S(":")); p.type_()
+                if p.opt(S(":=")): p.expr_until(S(";"))
+                p.eat(S(";")); names += ns
+            out[tuple(names)] = toks[i:j + 2]
+            i = j + 2
+        else:
+            i += 1
+    return out
+
+
+def collapse_locals(toks):
+    """tokens of an exppp LOCAL block -> the driver's token text (initialisers, precision, bounds become `E`)"""
+    p = P(toks[1:]); out = ["k:LOCAL"]
+    while not p.at(K("END_LOCAL")):
+        n = p.ident(); p.eat(S(":"))
+        a = p.i; p.type_(); b = p.i
+        out += ["i:" + n, "s::", collapse(p.t[a:b])]
+        if p.opt(S(":=")):
+            p.expr_until(S(";")); out += ["s::=", "E"]
+        p.eat(S(";")); out.append("s:;")
+    return " ".join(out + ["k:END_LOCAL", "s:;"])
+
+
+def scopes_with_locals(ast):
+    """every algorithm scope of a parsed schema (nested ones too) that has locals: list of [(name, type, init)]"""
+    out = []
+    def walk(scope):
+        for key, d in scope["decls"].items():
+            if key[0] in ("function", "procedure", "rule"):
+                if d["locals"]:
+                    out.append(d["locals"])
+                walk(d)
+    walk(ast)
+    return out
